@@ -82,6 +82,8 @@ const WORDS: &[&str] = &[
     // compatibility characters whose NFKC form contains a space (the token splits after normalisation)
     "a\u{00a8}b", "x\u{203e}", "\u{00b4}",
     // punctuation that file formats tend to give a meaning to (comments, separators, quotes, escapes)
+    // pairs that differ only by Unicode normalisation / compatibility
+    "fi", "\u{00c5}", "A\u{030a}", "\u{ff41}b", "x\u{00b2}", "x2",
     "#a", "#", "a#b", ";b", "//", "%c", "\"a\"", "'b'", "a\\b", "@ab", "&", "*a*", "a=b", "a:b", "[c]", "{a}", "a|b", "~", "!", "?b",
 ];
 
